@@ -204,7 +204,7 @@ Proof.
   match goal with |- context [let '(p1, out1) := ?X in _] => destruct X as [p1 out1] eqn:E1 end.
   assert (H1 : Forall (wdg fr last) out1 /\ 0 <= rp_hs p1 <= last /\ rp_rest p1 = rp_rest p).
   { destruct (next_unsent p chs).
-    - pose proof (unsent_rel_class fr last (S (length chs)) cf now chs Hc Hfr0 p [] Hfr Hhs (Forall_nil _)) as H.
+    - pose proof (unsent_rel_class fr last (S (2 * length chs)) cf now chs Hc Hfr0 p [] Hfr Hhs (Forall_nil _)) as H.
       rewrite E1 in H. exact H.
     - destruct (negb _); [inversion E1; subst; repeat split; try constructor; lia|].
       destruct (time_for_hb p now); unfold gen_hb in E1; inversion E1; subst; cbn; repeat split; try constructor; try lia.
@@ -220,26 +220,33 @@ Proof.
 Qed.
 
 Lemma write_be_class fr last fuel cf chs : Contig chs last ->
-  forall p acc, 0 <= rp_hs p <= last -> Forall (wdg fr last) acc ->
+  forall p acc, rp_fr p = fr -> 0 <= rp_hs p <= last -> Forall (wdg fr last) acc ->
   let r := write_be_loop fuel cf chs p acc in
   Forall (wdg fr last) (snd r) /\ 0 <= rp_hs (fst r) <= last /\ rp_rest (fst r) = rp_rest p.
 Proof.
-  intros Hc. induction fuel as [|f IH]; intros p acc Hhs Ha; cbn [write_be_loop]; [cbn; tauto|].
+  intros Hc. induction fuel as [|f IH]; intros p acc Hfr Hhs Ha; cbn [write_be_loop]; [cbn; tauto|].
   rewrite (contig_next_unsent chs last p Hc) by lia.
   destruct (Z.ltb_spec (rp_hs p) last) as [Hlt|Hge]; [|cbn; tauto].
   assert (rp_hs p + 1 <? rp_hs p + 1 = false) as -> by (apply Z.ltb_ge; lia).
   assert (Hin : In (rp_hs p + 1) (sns chs)) by (apply (contig_in chs last _ Hc); lia).
-  destruct (find_sn_some chs _ Hin) as [c (Hf & _ & _)]. rewrite Hf.
-  destruct (1 <? nfrags cf c).
-  - specialize (IH (set_hs p (rp_hs p + 1)) (acc ++ frag_dgrams c (nfrags cf c) [])).
+  destruct (lookup_relevant p (rp_hs p + 1) chs) as [c|] eqn:El.
+  - destruct (1 <? nfrags cf c).
+    + specialize (IH (set_hs p (rp_hs p + 1)) (acc ++ frag_dgrams c (nfrags cf c) [])).
+      cbn in IH. destruct (Z.ltb_spec (rp_hs p) (rp_hs p + 1)); [|lia].
+      destruct IH as (A & B & C); [assumption|lia| |].
+      * apply Forall_app; split; [assumption|]. apply wdg_frags. constructor.
+      * split; [exact A|]. split; [exact B|]. rewrite C. reflexivity.
+    + specialize (IH (set_hs p (rp_hs p + 1)) (acc ++ [toR [SData c]])).
+      cbn in IH. destruct (Z.ltb_spec (rp_hs p) (rp_hs p + 1)); [|lia].
+      destruct IH as (A & B & C); [assumption|lia| |].
+      * apply Forall_app; split; [assumption|]. constructor; [|constructor]. unfold wdg; cbn. repeat constructor.
+      * split; [exact A|]. split; [exact B|]. rewrite C. reflexivity.
+  - apply lookup_relevant_none in El; [|assumption].
+    specialize (IH (set_hs p (rp_hs p + 1)) (acc ++ [toR [SGap (rp_hs p + 1) (rp_hs p + 1 + 1)]])).
     cbn in IH. destruct (Z.ltb_spec (rp_hs p) (rp_hs p + 1)); [|lia].
-    destruct IH as (A & B & C); [lia| |].
-    + apply Forall_app; split; [assumption|]. apply wdg_frags. constructor.
-    + split; [exact A|]. split; [exact B|]. rewrite C. reflexivity.
-  - specialize (IH (set_hs p (rp_hs p + 1)) (acc ++ [toR [SData c]])).
-    cbn in IH. destruct (Z.ltb_spec (rp_hs p) (rp_hs p + 1)); [|lia].
-    destruct IH as (A & B & C); [lia| |].
-    + apply Forall_app; split; [assumption|]. constructor; [|constructor]. unfold wdg; cbn. repeat constructor.
+    destruct IH as (A & B & C); [assumption|lia| |].
+    + apply Forall_app; split; [assumption|]. constructor; [|constructor]. unfold wdg; cbn.
+      constructor; [cbn; lia|constructor].
     + split; [exact A|]. split; [exact B|]. rewrite C. reflexivity.
 Qed.
 
@@ -252,7 +259,7 @@ Lemma write_message_class fr last cf now chs p : Contig chs last -> 0 <= fr ->
 Proof.
   intros Hc Hfr0 Hfr Hhs Hreq. unfold write_message. destruct (rp_rel p).
   - pose proof (write_rel_class fr last cf now chs p Hc Hfr0 Hfr Hhs Hreq) as H. lazy zeta in H. tauto.
-  - pose proof (write_be_class fr last (S (length chs)) cf chs Hc p [] Hhs (Forall_nil _)) as H. lazy zeta in H.
+  - pose proof (write_be_class fr last (S (length chs)) cf chs Hc p [] Hfr Hhs (Forall_nil _)) as H. lazy zeta in H.
     set (r := write_be_loop (S (length chs)) cf chs p []) in *. clearbody r.
     destruct H as (A & B & C). unfold rp_rest, rp_static in C. injection C as C1 C2 C3 C4 C5 C6 C7.
     repeat split; try assumption; try lia.
@@ -415,7 +422,7 @@ Lemma on_gap_class fr last log w a b pres rel :
   RB last log (on_gap w a b) /\ (rel = true -> RCrel fr log (on_gap w a b) pres) /\ wp_hr w <= wp_hr (on_gap w a b).
 Proof.
   intros Hfr Hb (A & B & C & D) Hrel. unfold on_gap.
-  destruct ((a <? b) && (wp_hr w <? b - 1)) eqn:E.
+  destruct ((a <? b) && (a <=? avail_max w + 1) && (wp_hr w <? b - 1)) eqn:E.
   - apply andb_prop in E. destruct E as [_ E]. apply Z.ltb_lt in E.
     unfold RB, RCrel; cbn. repeat split; try assumption; try lia.
     + apply Hrel; assumption.
@@ -510,7 +517,8 @@ Proof.
     destruct (on_gap_class fr last log w a b (rd_pres r) (rd_rel r) Hfr Hm HB Hrel) as (A & B & C).
     exists (on_gap w a b). cbn [rd_present rd_wp rd_rel rd_pres].
     refine (conj eq_refl (conj eq_refl (conj A (conj B (conj C _))))). constructor.
-  - destruct Hm as [Hf Hl]. destruct (on_hb cf w f l c) as [w1 o] eqn:Eh.
+  - destruct Hm as [Hf Hl]. destruct (f <=? 0) eqn:Ef0; [subst f; discriminate|].
+    destruct (on_hb cf w f l c) as [w1 o] eqn:Eh.
     destruct (on_hb_class fr last log cf w f l c (rd_pres r) (rd_rel r) w1 o Hf Hl HB Hrel Eh) as (A & B & C & D).
     exists w1. destruct (hist_received (rd_wp (rd_present r w1 None))); inversion E; subst;
       cbn [rd_present rd_wp rd_rel rd_pres];
@@ -631,7 +639,8 @@ Proof.
   destruct m; try (intros E; inversion E; constructor).
   - destruct (on_data _ _ _). intros E; inversion E; constructor.
   - destruct (on_frag _ _ _ _ _). intros E; inversion E; constructor.
-  - unfold on_hb. destruct (wp_hb w <? count).
+  - destruct (first <=? 0); [intros E; inversion E; constructor|].
+    unfold on_hb. destruct (wp_hb w <? count).
     + match goal with |- context [acknack_of cf ?q] => pose proof (acknack_of_acks cf q) as Ha; destruct (acknack_of cf q) as [w2 subs] end.
       cbn [snd] in Ha. destruct (hist_received _); intros E; inversion E; subst;
         (constructor; [split; [exact Ha|reflexivity]|constructor]).
@@ -923,9 +932,9 @@ Proof.
     unfold hr_of, ROk in *. cbn. rewrite Er in B4, B5. rewrite E1, E2, E3. split; assumption.
 Qed.
 
-Lemma CInv_del s dead :
+Lemma CInv_del s dead ws :
   CInv s ->
-  CInv (mkSt (s_now s) (s_changes s) (s_last s) (s_inst s) (s_log s) None false (s_waits s) (kill_reader (s_rd s))
+  CInv (mkSt (s_now s) (s_changes s) (s_last s) (s_inst s) (s_log s) None false ws (kill_reader (s_rd s))
              dead (s_net s)).
 Proof.
   intros (HS & HN & HA). split; [|split].
@@ -1121,7 +1130,7 @@ Proof.
   match goal with |- context [let '(p1, out1) := ?X in _] => destruct X as [p1 out1] eqn:E1 end.
   rewrite req_loop_ha.
   destruct (next_unsent p chs).
-  - replace p1 with (fst (unsent_rel (S (length chs)) cf now chs p [])) by (rewrite E1; reflexivity).
+  - replace p1 with (fst (unsent_rel (S (2 * length chs)) cf now chs p [])) by (rewrite E1; reflexivity).
     apply unsent_rel_ha.
   - destruct (negb _); [inversion E1; reflexivity|].
     destruct (time_for_hb p now); unfold gen_hb in E1; inversion E1; reflexivity.
@@ -1131,7 +1140,7 @@ Proof.
   induction fuel as [|f IH]; intros p acc; cbn [write_be_loop]; [reflexivity|].
   destruct (next_unsent p chs) as [n|]; [|reflexivity].
   destruct (rp_hs p + 1 <? n); [rewrite IH; reflexivity|].
-  destruct (find_change n chs) as [c|]; [|rewrite IH; reflexivity].
+  destruct (lookup_relevant p n chs) as [c|]; [|rewrite IH; reflexivity].
   destruct (1 <? nfrags cf c); rewrite IH; reflexivity.
 Qed.
 Lemma write_message_ha cf now chs p : rp_ha (fst (write_message cf now chs p)) = rp_ha p.
